@@ -219,6 +219,17 @@ func init() {
 	}
 	// bytes.Compare / key ordering: injective order embedding
 	instanceAxioms["b.ord"] = func(t *Term) []*Term { return nil }
+	// strings.ToLower as an uninterpreted function: idempotent (via hasupper), length preserving on the modelled (ASCII) strings,
+	// the identity on strings without an upper-case letter
+	instanceAxioms["str.lower"] = func(t *Term) []*Term {
+		s := t.Args[0]
+		return []*Term{
+			Eq(strLen(t), strLen(s)),
+			Not(App("str.hasupper", BoolSort, t)),
+			Implies(Not(App("str.hasupper", BoolSort, s)), strEq(t, s)),
+			Implies(App("str.hasupper", BoolSort, s), Not(strEq(t, s))),
+		}
+	}
 	// strings.TrimSpace as an uninterpreted function: never longer than its argument, idempotent, empty for the
 	// empty string; a non-empty string may well trim to the empty one (all white space)
 	instanceAxioms["str.trim"] = func(t *Term) []*Term {
